@@ -130,3 +130,44 @@ def _c09_valgrind(out, exe, res):
     out.evaluations += evals
     out.coverage_extra["sanitizer_reports"] = reports
     out.coverage_extra["valgrind_evaluations"] = evals
+
+
+# ------------------------------------------------------------------------------------------------
+# C10: the same workload in two separate processes; no nonce may occur in both (fixed-seed PRNG)
+# ------------------------------------------------------------------------------------------------
+def run_c10(out, exe, tier, res):
+    reps = []
+    for k in range(2):
+        rep, status, err = _single(out, exe, "C10", tier, res)
+        if rep is None:
+            out.inconclusive.append("process %d: %s" % (k, status))
+            return
+        reps.append(rep)
+    heads = []
+    for rep in reps:
+        h = {}
+        for name, vals in rep.get("observed", {}).items():
+            if name.startswith("nonce-heads "):
+                h[name[len("nonce-heads "):]] = set(vals)
+        heads.append(h)
+    compared = 0
+    for cfg, a in heads[0].items():
+        b = heads[1].get(cfg, set())
+        compared += len(a) + len(b)
+        common_n = a & b
+        if common_n:
+            out.violation("C10 cross-process-nonce-repeat %s" % cfg,
+                          "%s: two separate processes produced the same nonce(s) %s" % (cfg, sorted(common_n)[:3]),
+                          {"cmd": "C10", "note": "cross-process comparison; re-run the check", "config": cfg, "nonces": sorted(common_n)[:5]})
+    if compared == 0:
+        out.inconclusive.append("no nonce heads to compare across processes")
+    # evidence: first process in full, second contributes its counters
+    for rep in reps:
+        rep["observed"] = {k: v for k, v in rep.get("observed", {}).items() if not k.startswith("nonce-heads ")}
+    hcheck.absorb(out, reps[0])
+    reps[1]["samples"] = []
+    d = out.distinct_nontrivial
+    hcheck.absorb(out, reps[1])
+    out.distinct_nontrivial = d   # same histories, second process: not more distinct cases
+    out.coverage_extra["processes"] = 2
+    out.coverage_extra["nonces_compared_across_processes"] = compared
